@@ -274,7 +274,9 @@ func Run(r *fw.Run) {
 	}, func(p [2]int, x *fw.Rec) {
 		A, B := fam[p[0]], fam[p[1]]
 		d, _ := wm.RunDiff(A.Infos(), B.Infos())
-		x.Describe(func() any { return map[string]any{"A": A.Brief(), "B": B.Brief(), "A_manifests": A.YAMLDocs(), "B_manifests": B.YAMLDocs()} })
+		x.Describe(func() any {
+			return map[string]any{"A": A.Brief(), "B": B.Brief(), "A_manifests": A.YAMLDocs(), "B_manifests": B.YAMLDocs()}
+		})
 		Check(A, B, list(p[0]), list(p[1]), d, x)
 		oc := outcome(d)
 		x.Outcome(oc)
